@@ -623,6 +623,71 @@ fn other_elem_types(r: &mut Report) {
 	}
 }
 
+/// every element handed to a window is dropped exactly once (evicted elements are returned to the caller, the rest dies
+/// with the window): a counting element type without heap memory, so that a double drop is a count, not a crash
+fn drop_accounting(r: &mut Report) {
+	use std::cell::Cell;
+	struct Probe<'a> {
+		made: &'a Cell<i64>,
+		dropped: &'a Cell<i64>,
+	}
+	impl<'a> Clone for Probe<'a> {
+		fn clone(&self) -> Self {
+			self.made.set(self.made.get() + 1);
+			Probe { made: self.made, dropped: self.dropped }
+		}
+	}
+	impl<'a> Drop for Probe<'a> {
+		fn drop(&mut self) {
+			self.dropped.set(self.dropped.get() + 1);
+		}
+	}
+	for n in [1usize, 2, 3, 7, 50] {
+		let made = Cell::new(0i64);
+		let dropped = Cell::new(0i64);
+		let res = guard(|| {
+			let mk = || {
+				made.set(made.get() + 1);
+				Probe { made: &made, dropped: &dropped }
+			};
+			let mut bad: Option<&'static str> = None;
+			{
+				let mut w: Window<Probe> = Window::new(n as P, mk());
+				for i in 0..(3 * n + 2) {
+					let old = w.push(mk());
+					// alive now: the n elements in the window + `old`
+					if made.get() - dropped.get() != n as i64 + 1 {
+						bad = Some("live-count-after-push");
+					}
+					if i % 2 == 0 {
+						drop(old);
+					} else {
+						let _moved = old;
+					}
+					if made.get() - dropped.get() != n as i64 {
+						bad = Some("live-count-after-dropping-the-evicted-element");
+					}
+				}
+				let c = w.clone();
+				if made.get() - dropped.get() != 2 * n as i64 {
+					bad = Some("live-count-after-clone");
+				}
+				drop(c);
+			}
+			if made.get() != dropped.get() {
+				bad = Some("not-every-element-dropped-exactly-once");
+			}
+			bad
+		});
+		r.eval(1);
+		match res {
+			Ok(None) => r.cell("elem-types:drop-accounting"),
+			Ok(Some(what)) => r.violate(&format!("C01|Window|drop-accounting|{what}"), "elements of a window are not dropped exactly once", || json!({"n": n, "made": made.get(), "dropped": dropped.get()})),
+			Err(p) => r.violate(&format!("C01|Window|drop-accounting|panic:{}", p.class()), &p.msg, || json!({"n": n})),
+		}
+	}
+}
+
 pub fn run(ctx: &Ctx, r: &mut Report) {
 	let max_n: usize = if P::MAX as u64 > 255 { 300 } else { P::MAX as usize - 1 };
 	if let Some(rp) = &ctx.replay {
@@ -669,5 +734,6 @@ pub fn run(ctx: &Ctx, r: &mut Report) {
 	}
 	if ctx.mine(5) {
 		other_elem_types(r);
+		drop_accounting(r);
 	}
 }
